@@ -2,6 +2,16 @@
 
 package simharness
 
-import "github.com/zeromicro/go-zero/core/timex"
+import (
+	"github.com/zeromicro/go-zero/core/stat"
+	"github.com/zeromicro/go-zero/core/timex"
+)
 
-func init() { resetClock = timex.VerifResetClock }
+func init() {
+	resetClock = timex.VerifResetClock
+	// go-zero's alert reporter rate-limits through a process-global executor whose state would
+	// leak from one simulated run into the next; go-zero switches the reporter off in test
+	// binaries itself (stat's init looks for the test.v flag), but that guard runs before the
+	// testing flags are registered and never fires.  Alerts are logging infrastructure.
+	stat.SetReporter(nil)
+}
